@@ -11,9 +11,18 @@ proved (Lean): the adjoint algebra and, for every exactly representable leaf cla
   Props/C01Gen.lean: `adj_denote_gen`); ConvolveData/Filter(+Adjoint) in 1-D and FFT/IFFT come in as `ext` leaves
   whose entries are taken from the C08 / C05 models through the generated pairing table (Props/C01Ext, C01Fft);
   FiniteDifference's tree is generated from the factory and compared with the real factory.
+  Stream `histories`: operator PROGRAMS (a pool of live operators; operands drawn from the pool, so sub-expressions are
+  shared, combinators nest in combinators of the same kind, the same object / the same list object is used twice,
+  adjoints are taken before, between and after the uses): at the end every live object and its (possibly long cached)
+  adjoint must still have the matrices the model gives for its expression.
 search: the dot test <Ax,y> == <x,A.H y>, swapped shapes, A.H.H(x) == A(x) on the real objects,
   over all Linop classes, the MRI factories and random trees (exact on Gaussian integers where the
-  arithmetic is exact, 1e-6 relative for FFT / NUFFT / wavelet / convolution leaves).
+  arithmetic is exact, 1e-6 relative for FFT / NUFFT / wavelet / convolution leaves).  The vectors are handed over
+  as real or complex, in C / Fortran / strided / negative-stride / component-view / offset layouts, as two interleaved
+  pairs on the same live objects, and - where the arithmetic is exact - scaled by 2^+-200 / 2^+-500 or in single
+  precision; parameter arrays (Multiply / MatMul / RightMatMul data, Interpolate / Gridding coordinates) also come in
+  real, single-precision and integer dtypes.  The same test runs on every live object of the operator programs, at
+  every "check" statement and at the end (keys C01:history:<class of the failing object>:<what>).
 """
 import itertools
 import json
@@ -134,8 +143,33 @@ def cplx(z):
     return complex(z[0], z[1])
 
 
-def carr(zs, shape):
-    return np.array([cplx(z) for z in zs], dtype=np.complex128).reshape(shape)
+ARR_DTYPES = {"c128": np.complex128, "c64": np.complex64, "f64": np.float64, "f32": np.float32, "i64": np.int64,
+              "i32": np.int32}
+
+
+def carr(zs, shape, dt=None):
+    """parameter array of an operator; `dt` (leaf parameter "dt") selects the dtype the user hands over: the values are
+    small Gaussian integers, so every one of these dtypes holds them exactly (real dtypes only for real values)"""
+    a = np.array([cplx(z) for z in zs], dtype=np.complex128).reshape(shape)
+    if dt in (None, "c128"):
+        return a
+    if dt == "c64":
+        return a.astype(np.complex64)
+    if np.any(a.imag != 0):
+        return a
+    return a.real.astype(ARR_DTYPES[dt])
+
+
+def rand_arr(rng, n, p):
+    """n Gaussian integers for a parameter array; sets p["dt"] (dtype of the array handed to the constructor)"""
+    r = rng.random()
+    if r < 0.6:
+        return [gint(rng) for _ in range(n)]
+    if r < 0.7:
+        p["dt"] = "c64"
+        return [gint(rng) for _ in range(n)]
+    p["dt"] = rng.choice(["f64", "f32", "i64", "i32"])
+    return [[rng.randint(-3, 3), 0] for _ in range(n)]
 
 
 # ---- spec -> RPN / sigpy object ------------------------------------------------------------------
@@ -218,18 +252,21 @@ def leaf_build(kind, p):
             z = p["mult"][0]
             m = int(z[0]) if (z[1] == 0 and p.get("intscalar")) else cplx(z)
             return lo.Multiply(p["ish"], m, conj=bool(p["conj"]))
-        return lo.Multiply(p["ish"], carr(p["mult"], p["msh"]), conj=bool(p["conj"]))
+        return lo.Multiply(p["ish"], carr(p["mult"], p["msh"], p.get("dt")), conj=bool(p["conj"]))
     if kind == "matmul":
-        return lo.MatMul(p["ish"], carr(p["mat"], p["msh"]), adjoint=bool(p["adjoint"]))
+        return lo.MatMul(p["ish"], carr(p["mat"], p["msh"], p.get("dt")), adjoint=bool(p["adjoint"]))
     if kind == "rmatmul":
-        return lo.RightMatMul(p["ish"], carr(p["mat"], p["msh"]), adjoint=bool(p["adjoint"]))
+        return lo.RightMatMul(p["ish"], carr(p["mat"], p["msh"], p.get("dt")), adjoint=bool(p["adjoint"]))
     if kind == "a2b":
         return lo.ArrayToBlocks(p["sh"], p["blk"], p["str"])
     if kind == "b2a":
         return lo.BlocksToArray(p["sh"], p["blk"], p["str"])
     if kind in ("interp", "grid", "interpkb", "gridkb"):
         nd = len(p["coord"][0])
+        # "cdt": integer-valued coordinates handed over in an integer dtype (same points, same operator)
         coord = np.array(p["coord"], dtype=np.float64).reshape(list(p["pts"]) + [nd])
+        if p.get("cdt") and np.all(coord == np.round(coord)):
+            coord = coord.astype(ARR_DTYPES[p["cdt"]])
         kern = "kaiser_bessel" if kind.endswith("kb") else "spline"
         cls = lo.Interpolate if kind.startswith("interp") else lo.Gridding
         return cls(p["sh"], coord, kernel=kern, width=p["width"], param=p["param"])
@@ -575,7 +612,8 @@ def gen_leaf(rng, ish=None, kinds=None):
                     me = me[1:]
                 if prod(me) > MAXEL or (mul_sums_all_axes(sh, me) and not probes()["mul_allsum"]):
                     continue
-                p = dict(ish=sh, msh=me, mult=[gint(rng) for _ in range(prod(me))], conj=int(rng.random() < 0.5))
+                p = dict(ish=sh, msh=me, conj=int(rng.random() < 0.5))
+                p["mult"] = rand_arr(rng, prod(me), p)
         elif kind in ("matmul", "rmatmul"):
             if nd < 2:
                 continue
@@ -598,7 +636,8 @@ def gen_leaf(rng, ish=None, kinds=None):
             if adjoint:
                 core = core[::-1]
             msh = bm + core
-            p = dict(ish=sh, msh=msh, mat=[gint(rng) for _ in range(prod(msh))], adjoint=adjoint)
+            p = dict(ish=sh, msh=msh, adjoint=adjoint)
+            p["mat"] = rand_arr(rng, prod(msh), p)
         elif kind in ("a2b", "b2a"):
             d = rng.randint(1, min(3, nd))
             nsh = sh[nd - d:]
@@ -616,6 +655,9 @@ def gen_leaf(rng, ish=None, kinds=None):
                 coord[-1] = list(coord[0])  # duplicate point
             width, param = rng.choice([(2, 1), (2, 1), (4, 1), (2, 0), (1, 0), (3, 1), (3, 2), (4, 2), (2, 2)])
             p = dict(sh=sh, pts=pts, coord=coord, width=width, param=param)
+            if rng.random() < 0.12:
+                p["coord"] = [[float(round(c)) for c in row] for row in coord]
+                p["cdt"] = "i64"
         if p is None:
             continue
         spec = ["leaf", kind, p]
@@ -799,12 +841,13 @@ def gvec(rng, shape, real=False):
     return (re + 1j * im).reshape(shape)
 
 
-def corr_case(ctx, spec, A, reply, stream, which=("M", "MH")):
+def corr_case(ctx, spec, A, reply, stream, which=("M", "MH"), extra=None):
     """compare the implementation with the model's matrices; returns number of disagreements"""
     exact = is_exact(spec)
     model = parse_reply(reply)
     bad = 0
-    case = dict(spec=spec)
+    extra = extra or {}
+    case = dict(spec=spec, **extra)
     if not isinstance(model, dict):
         ctx.disagree(stream, case, "builds: oshape=%s ishape=%s" % (A.oshape, A.ishape), model)
         return 1
@@ -829,7 +872,7 @@ def corr_case(ctx, spec, A, reply, stream, which=("M", "MH")):
             impl = "err %s: %s" % (type(e).__name__, str(e.__cause__ or e)[:100])
         if isinstance(impl, str) or not mats_equal(impl, model[w], exact):
             bad += 1
-            ctx.disagree(stream, dict(spec=spec, which=w), impl if isinstance(impl, str) else impl.tolist(), model[w].tolist())
+            ctx.disagree(stream, dict(spec=spec, which=w, **extra), impl if isinstance(impl, str) else impl.tolist(), model[w].tolist())
     return bad
 
 
@@ -879,7 +922,10 @@ def correspond(ctx, which=("M", "MH")):
     warnings.simplefilter("ignore")
     ctx.rule = ("case = operator expression (RPN line: class, shapes, parameters, Gaussian-integer data); the "
                 "implementation's matrix (basis vectors, plus one random Gaussian-integer vector) is compared with "
-                "the Lean model's matrix; distinct by protocol line; all cases are non-empty operators")
+                "the Lean model's matrix; distinct by protocol line; all cases are non-empty operators; stream "
+                "`histories`: case = (operator program, live object): the program builds a pool of operators from shared "
+                "operands with adjoints taken in between, the object's matrices after the whole program are compared "
+                "with the model's matrices of the expression it denotes; distinct by (program, object)")
     ctx.assumptions += [
         "numpy slicing / roll / tile / sum / matmul / reshape / transpose contracts (exercised by the correspondence)",
         "leaf pairing L.H = adjoint of L: proved in Lean for all 19 exactly representable classes - Identity, Reshape, "
@@ -975,7 +1021,65 @@ def correspond(ctx, which=("M", "MH")):
             ctx.case(ln, sample=dict(line=ln, reply=r[:160]) if ctx.evaluations % 11 == 0 else None)
             bad += corr_case(ctx, spec, A, r, "conv-ext", which)
         ctx.oblige("correspondence:%s.conv-ext" % ctx.prop, "correspondence", bad == 0, "%d disagreements" % bad)
+    if ctx.prop == "C01":
+        bad = corr_histories(ctx, 90 if quick else 500, which)
+        ctx.oblige("correspondence:%s.histories" % ctx.prop, "correspondence", bad == 0, "%d disagreements" % bad)
     ctx.traces = ctx.evaluations
+
+
+def corr_histories(ctx, nprog, which):
+    """operator programs (shared operands, adjoints taken in between): after the whole program has run, every live
+    object must still be the operator the model denotes for its expression - matrices of the object and of its
+    (possibly long cached) adjoint against `denote e` / `denote (adj e)`.  The theorems speak about the real object only
+    as long as it acts like `denote e`, whatever else has been built from it."""
+    rng = ctx.rng
+    todo, lines = [], []
+    for _ in range(nprog):
+        prog, stats = gen_program(rng)
+        for k, v in stats.items():
+            ctx.count("history:" + k, v)
+        specs = prog_specs(prog)
+
+        def touch(at, pool):
+            for P in pool:
+                if P is not None:
+                    P.H.H
+        try:
+            pool = run_program(prog, on_check=lambda at, pool: touch(at, pool) if at < len(prog) else None)
+        except Exception as e:  # the generator built it on the same source
+            ctx.disagree("histories", dict(program=prog, vseed=0), "err %s: %s" % (type(e).__name__, str(e.__cause__ or e)[:100]),
+                         "program builds when no adjoint is taken in between")
+            continue
+        objs = [k for k, P in enumerate(pool) if P is not None and spec_size(specs[k]) <= 40]
+        # operands first: they are the objects something else was built from
+        used = set()
+        for st in prog:
+            if st[0] in NARY:
+                used.update(st[-2])
+            elif st[0] in ("add", "sub", "comp", "H"):
+                used.update(st[1:3] if st[0] != "H" else st[1:2])
+            elif st[0] in ("neg", "conj"):
+                used.add(st[1])
+            elif st[0] in ("scale", "rscale"):
+                used.add(st[2])
+        first = [k for k in objs if k in used]
+        rest = [k for k in objs if k not in used]
+        rng.shuffle(first)
+        rng.shuffle(rest)
+        for k in (first + rest)[:3]:
+            todo.append((prog, k, specs[k], pool[k]))
+            lines.append("%s mats %s" % (ctx.prop, " ".join(rpn(specs[k]))))
+    bad = sum(1 for d in ctx.disagreements if d["stream"] == "histories")
+    replies = ctx.driver_guarded(lines)
+    for (prog, k, spec, A), ln, r in zip(todo, lines, replies):
+        if r == "err model-timeout":
+            ctx.count("corr:skipped-model-timeout")
+            continue
+        ctx.count("history:object:" + type(A).__name__)
+        ctx.case(("history", json.dumps(prog), k), sample=dict(program=json.dumps(prog)[:300], obj=k, reply=r[:120])
+                 if ctx.evaluations % 37 == 0 else None)
+        bad += corr_case(ctx, spec, A, r, "histories", which, extra=dict(program=prog, obj=k, vseed=0))
+    return bad
 
 
 # ---- opaque leaves for the search oracle -----------------------------------------------------------
@@ -1176,11 +1280,39 @@ def real_input_key(spec, x, y, exc=None):
     sub = common.Ctx("C01", "quick", 0)
     if not dot_oracle(sub, spec, x=np.asarray(x, dtype=np.complex128), y=np.asarray(y, dtype=np.complex128), real=False):
         return None  # also fails for complex data: not a dtype issue
+    if conv_real_key(spec, exc):
+        return conv_real_key(spec, exc)
     if exc is not None and type(root_cause(exc)).__name__ == "UFuncTypeError" and tags & {"add", "sub", "hstack", "vstack"}:  # Vstack.H is an Hstack
         return "C01:Add-Hstack:real-input-inplace-add"
     if exc is None and tags & {"vstack", "diag", "hstack"}:  # Hstack.H is a Vstack
         return "C01:Vstack-Diag:real-input-drops-imaginary"
     return None
+
+
+CONV_KINDS = {"convdata", "convdataadj", "convfilt", "convfiltadj", "convsense", "convimage"}
+
+
+def conv_real_key(spec, exc):
+    """real-dtype input to a convolution operator whose fixed operand is complex: conv._convolve & co. accumulate the
+    complex products in place into a buffer of the input's dtype (specific call site, stable key)"""
+    if exc is None:
+        return None
+    rc = root_cause(exc)
+    if isinstance(rc, TypeError) and "Cannot cast" in str(rc) and any(lf[1] in CONV_KINDS for lf in leaves(spec)):
+        return "C01:Convolve:real-input-complex-kernel"
+    return None
+
+
+def live_real_key(A, spec, x, y, exc=None):
+    """program oracle: a failure for real-dtype vectors is attributed to a dtype call site only when the same live
+    object passes on the same data held as complex128"""
+    if exc is None or not conv_real_key(spec, exc):
+        return None
+    sub = common.Ctx("C01", "quick", 0)
+    if not live_oracle(sub, A, spec, {}, x=np.asarray(x, dtype=np.complex128), y=np.asarray(y, dtype=np.complex128),
+                       real=False, keyf=lambda what: what):
+        return None
+    return conv_real_key(spec, exc)
 
 
 _KEY_OVERRIDE = []
@@ -1196,9 +1328,128 @@ def fail_key(spec, what):
     return "C01:%s:%s" % (CLASSNAME.get(k, k), what)
 
 
-def dot_oracle(ctx, spec, x=None, y=None, origin="search", real=False):
-    """<A x, y> == <x, A.H y>, swapped shapes, A.H.H(x) == A(x).  Returns True when the property holds."""
-    exact = is_exact(spec)
+LAYOUTS = ("C", "F", "strided", "reversed", "part", "offset")
+
+
+def layout(a, mode):
+    """the same values in a different memory layout (all are ordinary numpy arrays a user can hand over): "F" Fortran
+    order; "strided" every other element of a larger buffer along the last axis; "reversed" negative strides along every
+    axis; "part" a component view (`.real` of a complex buffer for real data, one column of a wider buffer for complex
+    data: the element stride differs from the item size even for 1-D data); "offset" a slice that does not start at the
+    beginning of its buffer.  The gaps of the underlying buffers hold large garbage values."""
+    a = np.asarray(a)
+    if mode in (None, "C") or a.ndim == 0:
+        return np.ascontiguousarray(a).copy()
+    junk = 1e6 + 7
+    if mode == "F":
+        return np.asfortranarray(a).copy(order="F")
+    if mode == "strided":
+        big = np.full(a.shape[:-1] + (2 * a.shape[-1] + 1,), junk, dtype=a.dtype)
+        v = big[..., 1::2]
+        v[...] = a
+        return v
+    if mode == "reversed":
+        fl = tuple(slice(None, None, -1) for _ in a.shape)
+        return np.ascontiguousarray(a[fl])[fl]
+    if mode == "part":
+        if np.iscomplexobj(a):
+            big = np.full(a.shape + (2,), junk * (1 - 1j), dtype=a.dtype)
+            big[..., 0] = a
+            return big[..., 0]
+        z = (a + 1j * junk).astype(np.complex64 if a.dtype == np.float32 else np.complex128)
+        return z.real
+    if mode == "offset":
+        big = np.full((a.shape[0] + 2,) + a.shape[1:], junk, dtype=a.dtype)
+        big[1:-1] = a
+        return big[1:-1]
+    raise ValueError(mode)
+
+
+# leaves that end in the lazily compiled (uncached) numba kernels of interp.py: every new (dtype, layout) signature of
+# their arguments costs a compilation, so for trees containing them the call options stay within the signatures the
+# plain dot test already uses (C / Fortran float64 / complex128); the kernels themselves are stride- and dtype-generic
+JIT_KINDS = {"interp", "grid", "interpkb", "gridkb", "nufft", "nufftadj", "sense"}
+
+
+def jit_spec(spec):
+    return any(lf[1] in JIT_KINDS for lf in leaves(spec))
+
+
+def spec_opts(rng, spec, real=False):
+    o = rand_opts(rng, is_exact(spec), real)
+    if jit_spec(spec):
+        o.pop("single", None)
+        if "layout" in o:
+            o["layout"] = [v if v in ("C", "F") else "F" for v in o["layout"]]
+    return o
+
+
+def rand_opts(rng, exact, real=False):
+    """how the vectors of one dot test are handed to the operator (all inside 'for all real or complex x, y'):
+    layout  memory layouts of x and y;
+    pair2   a second pair (x2, y2) applied to the same live objects before the first results are used (an operator is
+            a function of its argument: results of earlier calls stay what they were, later calls do not depend on them);
+    pow2    x scaled by 2^k, y by 2^-k (exact: power-of-two scaling commutes with exact arithmetic), only where the
+            operator's arithmetic is exact; single  x, y in single precision (small integers: still exact), ditto."""
+    o = {}
+    if rng.random() < 0.5:
+        o["layout"] = [rng.choice(LAYOUTS), rng.choice(LAYOUTS)]
+    if rng.random() < 0.35:
+        o["pair2"] = True
+    if exact:
+        r = rng.random()
+        if r < 0.12:
+            o["pow2"] = rng.choice([-500, -200, 200, 500])
+        elif r < 0.24:
+            o["single"] = True
+    return o
+
+
+def abs_spec(spec):
+    """the tree with every subtraction / negation / scalar factor replaced by its absolute value: A - A becomes A + A"""
+    t = spec[0]
+    if t == "leaf":
+        return spec
+    if t == "sub":
+        return ["add", abs_spec(spec[1]), abs_spec(spec[2])]
+    if t == "neg":
+        return abs_spec(spec[1])
+    if t in ("scale", "rscale"):
+        return [t, [abs(cplx(spec[1])), 0], abs_spec(spec[2])]
+    if t in ("hstack", "vstack"):
+        return [t, spec[1], [abs_spec(q) for q in spec[2]]]
+    if t == "diag":
+        return [t, spec[1], spec[2], [abs_spec(q) for q in spec[3]]]
+    return [t] + [abs_spec(q) for q in spec[1:]]
+
+
+def gross_scale(spec, x, y):
+    """(|A' x| |y| + |x| |A'^H y|, max |A' x|) for A' = abs_spec(spec): the magnitude of the terms an inexact operator
+    adds up.  "To floating-point accuracy" is relative to these, not to the result: (A - A)(x) for an FFT-based A is
+    rounding noise of size eps * |A x|, although the exact value (and hence |Ax||y| + |x||A^H y|) is zero."""
+    try:
+        with warnings.catch_warnings():
+            warnings.simplefilter("ignore")
+            Aa = build(abs_spec(spec))
+            ax = np.asarray(Aa(np.asarray(x, dtype=np.complex128).reshape(Aa.ishape)), dtype=np.complex128)
+            ay = np.asarray(Aa.H(np.asarray(y, dtype=np.complex128).reshape(Aa.oshape)), dtype=np.complex128)
+        return (float(np.linalg.norm(ax) * np.linalg.norm(y) + np.linalg.norm(x) * np.linalg.norm(ay)),
+                float(np.max(np.abs(ax))) if ax.size else 0.0)
+    except Exception:
+        return None
+
+
+def has_cancellation(spec):
+    return any(n[0] in ("sub", "neg", "scale", "rscale", "add") for n in walk(spec))
+
+
+def cvals(a):
+    return [[float(v.real), float(v.imag)] for v in np.asarray(a, dtype=np.complex128).reshape(-1)]
+
+
+def dot_oracle(ctx, spec, x=None, y=None, origin="search", real=False, opts=None, x2=None, y2=None):
+    """<A x, y> == <x, A.H y>, swapped shapes, A.H.H(x) == A(x) for the operator `spec` denotes, built afresh.
+    Returns True when the property holds."""
     case = dict(spec=spec, real=real)
     with warnings.catch_warnings():
         warnings.simplefilter("ignore")
@@ -1210,54 +1461,451 @@ def dot_oracle(ctx, spec, x=None, y=None, origin="search", real=False):
                          case, observed=repr(e), expected="operator", origin=origin)
                 return False
             return True  # not a valid construction: outside the property's domain
+    return live_oracle(ctx, A, spec, case, x=x, y=y, origin=origin, real=real, opts=opts, x2=x2, y2=y2,
+                       keyf=lambda what: fail_key(spec, what),
+                       rkeyf=(lambda xx, yy, exc=None: real_input_key(spec, xx, yy, exc)) if real else None)
+
+
+def live_oracle(ctx, A, spec, case, x=None, y=None, origin="search", real=False, opts=None, x2=None, y2=None,
+                keyf=None, rkeyf=None, rng=None):
+    """the property on the LIVE operator object A (whatever was done with it before): A.H has A's shapes swapped,
+    <A x, y> == <x, A.H y>, A.H.H(x) == A(x).  `spec` is the tree A denotes (exactness class and keys only)."""
+    exact = is_exact(spec)
+    rng = rng or ctx.rng
+    opts = dict(opts or {})
+    if not exact:
+        opts.pop("pow2", None)
+        opts.pop("single", None)
+    if opts:
+        case["opts"] = opts
+    rk = (lambda xx, yy, exc=None: None) if rkeyf is None else rkeyf
+    with warnings.catch_warnings():
+        warnings.simplefilter("ignore")
         try:
             AH = A.H
         except Exception as e:
-            ctx.fail(fail_key(spec, "adjoint-build"), "A.H cannot be constructed", case, observed=repr(e.__cause__ or e),
+            ctx.fail(keyf("adjoint-build"), "A.H cannot be constructed", case, observed=repr(e.__cause__ or e),
                      expected="adjoint operator", origin=origin)
             return False
         if oshp(AH) != ishp(A) or ishp(AH) != oshp(A):
-            ctx.fail(fail_key(spec, "adjoint-shape"), "A.H does not have A's shapes swapped", case,
+            ctx.fail(keyf("adjoint-shape"), "A.H does not have A's shapes swapped", case,
                      observed=dict(H_oshape=oshp(AH), H_ishape=ishp(AH)),
                      expected=dict(H_oshape=ishp(A), H_ishape=oshp(A)), origin=origin)
             return False
-        x = gvec(ctx.rng, A.ishape, real=real) if x is None else np.asarray(x)
-        y = gvec(ctx.rng, A.oshape, real=real) if y is None else np.asarray(y)
-        case["x"] = [[float(v.real), float(v.imag)] for v in np.asarray(x, dtype=np.complex128).reshape(-1)]
-        case["y"] = [[float(v.real), float(v.imag)] for v in np.asarray(y, dtype=np.complex128).reshape(-1)]
+        k = int(opts.get("pow2", 0))
+        x = gvec(rng, A.ishape, real=real) * 2.0 ** k if x is None else np.asarray(x)
+        y = gvec(rng, A.oshape, real=real) * 2.0 ** (-k) if y is None else np.asarray(y)
+        if opts.get("pair2") and x2 is None:
+            x2, y2 = gvec(rng, A.ishape, real=real) * 2.0 ** k, gvec(rng, A.oshape, real=real) * 2.0 ** (-k)
+        if opts.get("single") and not k:
+            cast = (lambda v: v.astype(np.float32)) if real else (lambda v: v.astype(np.complex64))
+            x, y = cast(x), cast(y)
+            if x2 is not None:
+                x2, y2 = cast(x2), cast(y2)
+        case["x"], case["y"] = cvals(x), cvals(y)
+        if x2 is not None:
+            x2, y2 = np.asarray(x2), np.asarray(y2)
+            case["x2"], case["y2"] = cvals(x2), cvals(y2)
+        lay = opts.get("layout")
+        lx = (lambda v: layout(v, lay[0])) if lay else (lambda v: relayout(v.copy(), 0))
+        ly = (lambda v: layout(v, lay[1])) if lay else (lambda v: relayout(v.copy(), 1))
         try:
-            Ax = np.asarray(A(relayout(x.copy(), 0)))
-            AHy = np.asarray(AH(relayout(y.copy(), 1)))
+            # the results of the first calls are used after the later calls, as a caller would
+            Ax = np.asarray(A(lx(x)))
+            Ax2 = None if x2 is None else np.asarray(A(ly(x2) if lay else x2.copy()))
+            AHy = np.asarray(AH(ly(y)))
+            AHy2 = None if x2 is None else np.asarray(AH(lx(y2) if lay else y2.copy()))
             AHHx = np.asarray(AH.H(x.copy()))
         except Exception as e:
-            rk = real_input_key(spec, x, y, e) if real else None
-            ctx.fail(rk or fail_key(spec, "apply"), "a validly constructed operator (or its adjoint) raises when applied", case,
+            ctx.fail(rk(x, y, e) or keyf("apply"), "a validly constructed operator (or its adjoint) raises when applied", case,
                      observed=repr(e.__cause__ or e), expected="result", origin=origin)
             return False
     if list(Ax.shape) != oshp(A) or list(AHy.shape) != ishp(A):
-        ctx.fail(fail_key(spec, "output-shape"), "output shape differs from the advertised shape", case,
+        ctx.fail(keyf("output-shape"), "output shape differs from the advertised shape", case,
                  observed=dict(Ax=list(Ax.shape), AHy=list(AHy.shape)), expected=dict(Ax=oshp(A), AHy=ishp(A)),
                  origin=origin)
         return False
-    lhs = np.vdot(Ax, y)
-    rhs = np.vdot(x, AHy)
-    scale = float(np.linalg.norm(Ax) * np.linalg.norm(y) + np.linalg.norm(x) * np.linalg.norm(AHy))
-    tol = 0.0 if exact else 1e-6 * scale
     ok = True
-    if abs(lhs - rhs) > tol:
-        rk = real_input_key(spec, x, y) if real else None
-        ctx.fail(rk or fail_key(spec, "dot-real-input" if real else "dot"), "<A x, y> != <x, A.H y>", case,
-                 observed=dict(lhs=[lhs.real, lhs.imag], rhs=[rhs.real, rhs.imag]),
-                 expected="equal%s" % ("" if exact else " within 1e-6 * (|Ax||y| + |x||A.H y|) = %.3g" % tol), origin=origin)
-        ok = False
-    d = float(np.max(np.abs(AHHx - Ax))) if (Ax.size and AHHx.shape == Ax.shape) else 0.0
-    tol2 = 0.0 if exact else 1e-6 * max(1.0, float(np.max(np.abs(Ax))) if Ax.size else 1.0)
-    if AHHx.shape != Ax.shape or d > tol2:
-        rk = real_input_key(spec, x, y) if real else None
-        ctx.fail(rk or fail_key(spec, "HH"), "A.H.H does not act like A", case, observed=AHHx.reshape(-1).tolist()[:40],
-                 expected=Ax.reshape(-1).tolist()[:40], origin=origin)
+    pairs = [("x,y", x, Ax, y, AHy)]
+    if x2 is not None:
+        pairs += [("x2,y2", x2, Ax2, y2, AHy2), ("x,y2", x, Ax, y2, AHy2), ("x2,y", x2, Ax2, y, AHy)]
+    for name, xv, Axv, yv, AHyv in pairs:
+        # accumulate in double precision whatever the dtype of the results
+        Axd, AHyd = np.asarray(Axv, dtype=np.complex128), np.asarray(AHyv, dtype=np.complex128)
+        xd, yd = np.asarray(xv, dtype=np.complex128), np.asarray(yv, dtype=np.complex128)
+        if Axd.size != yd.size or AHyd.size != xd.size:
+            ctx.fail(keyf("output-shape"), "output shape differs from the advertised shape", case,
+                     observed=dict(Ax=list(Axd.shape), AHy=list(AHyd.shape)), expected=dict(Ax=oshp(A), AHy=ishp(A)),
+                     origin=origin)
+            return False
+        lhs = np.vdot(Axd, yd)
+        rhs = np.vdot(xd, AHyd)
+        scale = float(np.linalg.norm(Axd) * np.linalg.norm(yd) + np.linalg.norm(xd) * np.linalg.norm(AHyd))
+        tol = 0.0 if exact else 1e-6 * scale
+        if not exact and not abs(lhs - rhs) <= tol and has_cancellation(spec):
+            g = gross_scale(spec, xd, yd)   # sums of inexact terms: accuracy is relative to the terms
+            if g is not None and g[0] > scale:
+                tol = 1e-6 * g[0]
+                ctx.count("oracle:tolerance-relative-to-summed-terms")
+        if not abs(lhs - rhs) <= tol:
+            ctx.fail(rk(x, y) or keyf("dot-real-input" if real else "dot"),
+                     "<A x, y> != <x, A.H y>" + ("" if name == "x,y" else " for the pair (%s) of two interleaved pairs" % name),
+                     case, observed=dict(lhs=[lhs.real, lhs.imag], rhs=[rhs.real, rhs.imag], pair=name),
+                     expected="equal%s" % ("" if exact else " within 1e-6 * (|Ax||y| + |x||A.H y|) = %.3g" % tol), origin=origin)
+            ok = False
+            break
+    Axd, AHHd = np.asarray(Ax, dtype=np.complex128), np.asarray(AHHx, dtype=np.complex128)
+    d = float(np.max(np.abs(AHHd - Axd))) if (Axd.size and AHHd.shape == Axd.shape) else 0.0
+    tol2 = 0.0 if exact else 1e-6 * max(1.0, float(np.max(np.abs(Axd))) if Axd.size else 1.0)
+    if not exact and AHHd.shape == Axd.shape and not d <= tol2 and has_cancellation(spec):
+        g = gross_scale(spec, x, y)
+        if g is not None:
+            tol2 = max(tol2, 1e-6 * g[1])
+    if AHHd.shape != Axd.shape or not d <= tol2:
+        ctx.fail(rk(x, y) or keyf("HH"), "A.H.H does not act like A", case, observed=AHHd.reshape(-1).tolist()[:40],
+                 expected=Axd.reshape(-1).tolist()[:40], origin=origin)
         ok = False
     return ok
+
+
+# ---- operator programs: histories with shared sub-expressions ------------------------------------------
+# The property quantifies over "programs": every operator object a user program holds - an operand that was combined
+# into a larger expression, an operator whose adjoint was taken earlier, the same object used twice - is an operator
+# "the library can construct", so each of them must satisfy the property whenever it is looked at.
+# A program is a list of statements; statement k defines pool[k] (None for "use" / "check"):
+#   ["new", spec]                           fresh tree (spec as above)
+#   ["H", i]                                pool[i].H   (the first access caches it in pool[i].adj)
+#   ["add"|"sub"|"comp", i, j]              pool[i] + pool[j], pool[i] - pool[j], pool[i] * pool[j]
+#   ["neg"|"conj", i]  ["scale"|"rscale", z, i]
+#   ["addn"|"compn", [i..], share]          Add([...]) / Compose([...]) called directly with a list
+#   ["hstack"|"vstack", axis, [i..], share] ["diag", oaxis, iaxis, [i..], share]
+#        share = k: the very list OBJECT that was passed to statement k is passed again (ops = [A, B]; Add(ops); Vstack(ops))
+#   ["use", i, "H"|"HH"|"N"|"apply"]        touch pool[i] and discard the result
+#   ["check"]                               look at every live object now (the oracle tests them; the correspondence only
+#                                           takes their adjoints) - there is always one more check at the end
+NARY = ("addn", "compn", "hstack", "vstack", "diag")
+COMBINATORS = ("Add", "Compose", "Hstack", "Vstack", "Diag", "Conj")
+
+
+def exec_stmt(st, pool, lists):
+    from sigpy import linop as lo
+    t = st[0]
+    if t == "new":
+        return build(st[1])
+    if t == "H":
+        return pool[st[1]].H
+    if t == "add":
+        return pool[st[1]] + pool[st[2]]
+    if t == "sub":
+        return pool[st[1]] - pool[st[2]]
+    if t == "comp":
+        return pool[st[1]] * pool[st[2]]
+    if t == "neg":
+        return -pool[st[1]]
+    if t == "conj":
+        return lo.Conj(pool[st[1]])
+    if t == "scale":
+        return cplx(st[1]) * pool[st[2]]
+    if t == "rscale":
+        return pool[st[2]] * cplx(st[1])
+    if t in NARY:
+        idx, share = st[-2], st[-1]
+        ops = lists[share] if share is not None else [pool[i] for i in idx]
+        lists[len(pool)] = ops
+        if t == "addn":
+            return lo.Add(ops)
+        if t == "compn":
+            return lo.Compose(ops)
+        if t == "hstack":
+            return lo.Hstack(ops, axis=st[1])
+        if t == "vstack":
+            return lo.Vstack(ops, axis=st[1])
+        return lo.Diag(ops, oaxis=st[1], iaxis=st[2])
+    if t == "use":
+        Q = pool[st[1]]
+        if st[2] == "H":
+            Q.H
+        elif st[2] == "HH":
+            Q.H.H
+        elif st[2] == "N":
+            Q.N
+        elif st[2] == "apply":
+            Q(np.ones(Q.ishape, dtype=np.complex128))
+        else:
+            raise ValueError(st[2])
+        return None
+    if t == "check":
+        return None
+    raise ValueError(t)
+
+
+def run_program(prog, on_check=None):
+    pool, lists = [], {}
+    with warnings.catch_warnings():
+        warnings.simplefilter("ignore")
+        for k, st in enumerate(prog):
+            P = exec_stmt(st, pool, lists)
+            pool.append(P)
+            if st[0] == "check" and on_check is not None:
+                on_check(k, pool)
+        if on_check is not None:
+            on_check(len(prog), pool)
+    return pool
+
+
+def prog_specs(prog):
+    """the expression tree every statement denotes (None for use / check)"""
+    out = []
+
+    def fold(tag, ss):
+        s = ss[0]
+        for q in ss[1:]:
+            s = [tag, s, q]
+        return s
+
+    for st in prog:
+        t = st[0]
+        if t == "new":
+            s = st[1]
+        elif t == "H":
+            s = ["H", out[st[1]]]
+        elif t in ("add", "sub", "comp"):
+            s = [t, out[st[1]], out[st[2]]]
+        elif t in ("neg", "conj"):
+            s = [t, out[st[1]]]
+        elif t in ("scale", "rscale"):
+            s = [t, st[1], out[st[2]]]
+        elif t == "addn":
+            s = fold("add", [out[i] for i in st[1]])
+        elif t == "compn":
+            s = fold("comp", [out[i] for i in st[1]])
+        elif t in ("hstack", "vstack"):
+            s = [t, st[1], [out[i] for i in st[2]]]
+        elif t == "diag":
+            s = ["diag", st[1], st[2], [out[i] for i in st[3]]]
+        else:
+            s = None
+        out.append(s)
+    return out
+
+
+def spec_size(spec):
+    return sum(1 for _ in walk(spec))
+
+
+def gen_program(rng, opaque=False, lim=MAXEL):
+    """random program over a pool of live operators; returns (prog, stats).  Operands are drawn from the pool, so
+    sub-expressions are shared between several live operators, combinators are nested in combinators of the same kind,
+    an operand is used on either side, and adjoints are taken (cached) before, between and after the uses."""
+    prog, pool, lists = [], [], {}
+    stats = {}
+
+    def note(k):
+        stats[k] = stats.get(k, 0) + 1
+
+    def push(st):
+        k = len(pool)
+        try:
+            with warnings.catch_warnings():
+                warnings.simplefilter("ignore")
+                P = exec_stmt(st, pool, lists)
+        except Exception:
+            lists.pop(k, None)
+            return None
+        if P is not None and (prod(P.oshape) > lim or prod(P.ishape) > lim or not len(P.oshape) or not len(P.ishape)):
+            lists.pop(k, None)
+            return None
+        operands = []
+        if st[0] in NARY:
+            operands = st[-2]
+        elif st[0] in ("add", "sub", "comp"):
+            operands = st[1:3]
+        for i in operands:
+            if type(pool[i]).__name__ in COMBINATORS:
+                note("operand-is-combinator")
+                if getattr(pool[i], "adj", None) is not None:
+                    note("operand-with-cached-adjoint")
+                if P is not None and type(pool[i]) is type(P):
+                    note("nested-same-kind")
+        if len(set(operands)) < len(operands):
+            note("same-object-twice")
+        prog.append(st)
+        pool.append(P)
+        note("stmt:" + st[0])
+        return k
+
+    def live():
+        return [k for k, P in enumerate(pool) if P is not None]
+
+    def partner(i):
+        """an operator with pool[i]'s shapes: another live one, pool[i] itself, or a new one made from pool[i]"""
+        c = [k for k in live() if k != i and ishp(pool[k]) == ishp(pool[i]) and oshp(pool[k]) == oshp(pool[i])]
+        r = rng.random()
+        if c and r < 0.55:
+            return rng.choice(c)
+        if r < 0.65:
+            return i
+        rr = rng.random()
+        if rr < 0.25:
+            return push(["conj", i])
+        if rr < 0.45:
+            return push(["scale", gint(rng, nz=True), i])
+        if rr < 0.75:
+            q = push(["new", shape_preserving(rng, oshp(pool[i]))[0]])
+            return None if q is None else push(["comp", q, i])
+        q = push(["new", shape_preserving(rng, ishp(pool[i]))[0]])
+        return None if q is None else push(["comp", i, q])
+
+    def operands(i):
+        ops = [i, partner(i)]
+        if rng.random() < 0.3:
+            ops.append(partner(i))
+        if None in ops:
+            return None
+        if rng.random() < 0.5:
+            rng.shuffle(ops)
+        return ops
+
+    for _ in range(20):
+        if opaque:
+            spec, A = gen_opaque(rng)
+            if prod(A.ishape) > lim or prod(A.oshape) > lim:
+                continue
+        else:
+            spec, A = gen_tree(rng, rng.choice([0, 0, 1, 1, 2]), None)
+        if push(["new", spec]) is not None:
+            break
+    if not pool:
+        push(["new", ["leaf", "id", dict(sh=[3])]])
+    target = rng.randint(4, 10)
+    moves = ["H", "use", "use", "check", "add", "add", "sub", "addn", "addn", "comp", "comp", "compn", "hstack", "vstack",
+             "diag", "unary", "share"]
+    tries = 0
+    while len(prog) < target and tries < 80:
+        tries += 1
+        lv = live()
+        comb = [k for k in lv if type(pool[k]).__name__ in COMBINATORS]
+        i = rng.choice(comb) if comb and rng.random() < 0.6 else rng.choice(lv)
+        m = rng.choice(moves)
+        n0 = len(prog)
+        if m == "H":
+            push(["H", i])
+        elif m == "use":
+            push(["use", i, rng.choice(["H", "H", "H", "HH", "N", "apply"])])
+        elif m == "check":
+            if prog[-1][0] != "check":
+                push(["check"])
+        elif m in ("add", "sub"):
+            j = partner(i)
+            if j is not None:
+                push([m, i, j] if rng.random() < 0.6 else [m, j, i])
+        elif m == "addn":
+            ops = operands(i)
+            if ops:
+                push(["addn", ops, None])
+        elif m == "comp":
+            r = rng.random()
+            right = [k for k in lv if oshp(pool[k]) == ishp(pool[i])]
+            left = [k for k in lv if ishp(pool[k]) == oshp(pool[i])]
+            if right and r < 0.35:
+                push(["comp", i, rng.choice(right)])
+            elif left and r < 0.7:
+                push(["comp", rng.choice(left), i])
+            elif r < 0.85:
+                h = push(["H", i])
+                if h is not None:
+                    push(["comp", h, i] if rng.random() < 0.5 else ["comp", i, h])
+            else:
+                q = push(["new", gen_leaf(rng, ish=oshp(pool[i]))[0]])
+                if q is not None:
+                    push(["comp", q, i])
+        elif m == "compn":
+            h = push(["H", i])
+            if h is not None:
+                push(["compn", rng.choice([[h, i], [i, h], [i, h, i], [h, i, h]]), None])
+        elif m in ("hstack", "vstack"):
+            ops = operands(i)
+            if ops:
+                side = ishp(pool[i]) if m == "hstack" else oshp(pool[i])
+                ax = rng.choice([None] + list(range(-len(side) if probes()["neg_stack"] else 0, len(side))))
+                push([m, ax, ops, None])
+        elif m == "diag":
+            ops = operands(i)
+            if ops:
+                if rng.random() < 0.4:
+                    oax = iax = None
+                else:
+                    oax, iax = rng.randrange(len(pool[i].oshape)), rng.randrange(len(pool[i].ishape))
+                push(["diag", oax, iax, ops, None])
+        elif m == "unary":
+            t = rng.choice(["neg", "conj", "scale", "rscale"])
+            push([t, i] if t in ("neg", "conj") else [t, gint(rng, nz=True), i])
+        elif m == "share":
+            ks = [k for k in lists if prog[k][-1] is None]
+            if ks:
+                k = rng.choice(ks)
+                t = rng.choice(["addn", "hstack", "vstack", "diag", "compn"])
+                idx = list(prog[k][-2])
+                st = {"addn": ["addn", idx, k], "compn": ["compn", idx, k], "hstack": ["hstack", None, idx, k],
+                      "vstack": ["vstack", None, idx, k], "diag": ["diag", None, None, idx, k]}[t]
+                if push(st) is not None:
+                    note("shared-list-object")
+        # having just built a combinator, often take its adjoint (or look at everything) before it is used again
+        if len(prog) > n0 and pool[-1] is not None and type(pool[-1]).__name__ in COMBINATORS:
+            r = rng.random()
+            if r < 0.35:
+                push(["use", len(pool) - 1, rng.choice(["H", "H", "HH", "N"])])
+            elif r < 0.5:
+                push(["check"])
+    return prog, stats
+
+
+def prog_key(P, what):
+    return "C01:history:%s:%s" % (type(P).__name__, what)
+
+
+def prog_oracle(ctx, prog, vseed, origin="search"):
+    """the property on every live object of the program, at every "check" statement and at the end.  Deterministic in
+    (prog, vseed): all vectors and call options are drawn from random.Random(vseed)."""
+    import random
+    vr = random.Random(vseed)
+    specs = prog_specs(prog)
+    state = dict(ok=True)
+
+    def check(at, pool):
+        seen = set()
+        for k, P in enumerate(pool):
+            if P is None or not state["ok"] or id(P) in seen:
+                continue
+            seen.add(id(P))
+            real = vr.random() < 0.25
+            case = dict(program=prog, vseed=vseed, obj=k, at=at, spec=specs[k], real=real)
+            opts = spec_opts(vr, specs[k], real)
+            if not live_oracle(ctx, P, specs[k], case, origin=origin, real=real, opts=opts, rng=vr,
+                               keyf=lambda what, P=P: prog_key(P, what),
+                               rkeyf=(lambda xx, yy, exc=None, P=P, k=k: live_real_key(P, specs[k], xx, yy, exc)) if real else None):
+                state["ok"] = False
+
+    pool, lists = [], {}
+    with warnings.catch_warnings():
+        warnings.simplefilter("ignore")
+        for k, st in enumerate(prog):
+            try:
+                P = exec_stmt(st, pool, lists)
+            except Exception as e:
+                # the generator built this very program on the same source without the intermediate checks
+                ctx.fail("C01:history:build", "statement %d of an operator program that can be built when nobody looks at "
+                         "the operands in between fails once their adjoints have been taken" % k,
+                         dict(program=prog, vseed=vseed, at=k), observed=repr(e.__cause__ or e), expected="operator",
+                         origin=origin)
+                return False
+            pool.append(P)
+            if st[0] == "check":
+                check(k, pool)
+            if not state["ok"]:
+                return False
+    check(len(prog), pool)
+    return state["ok"]
 
 
 def mul_allsum_spec(rng):
@@ -1301,7 +1949,13 @@ def search(ctx, budget):
     warnings.simplefilter("ignore")
     # 1. replay disagreeing cases first
     for d in ctx.disagreements[:100]:
-        dot_oracle(ctx, d["case"]["spec"], origin="disagreement")
+        c = d["case"]
+        if "program" in c:
+            for t in range(3):   # the same history, three draws of vectors / call options
+                if not prog_oracle(ctx, c["program"], c.get("vseed", 0) + t, origin="disagreement"):
+                    break
+        else:
+            dot_oracle(ctx, c["spec"], origin="disagreement")
     neg_ok = probes()["neg_stack"]
     n = int(300 * budget)
     # 2. every class of the model, plain
@@ -1310,21 +1964,22 @@ def search(ctx, budget):
         ctx.count("oracle:class:" + spec[1])
         dot_oracle(ctx, spec)
         dot_oracle(ctx, spec, real=True)
+        dot_oracle(ctx, spec, real=rng.random() < 0.3, opts=count_opts(ctx, spec_opts(rng, spec)))
     # 3. random trees (negative stacking axes always included here: the oracle reports them)
     for i in range(n):
         spec, _ = gen_tree(rng, rng.choice([1, 2, 3, 4]), None, stack_neg=(neg_ok or i % 10 == 0))
         ctx.case(("oracle", json.dumps(spec)))
         ctx.count("oracle:tree")
-        dot_oracle(ctx, spec)
+        dot_oracle(ctx, spec, opts=count_opts(ctx, spec_opts(rng, spec)) if i % 2 else None)
         if i % 3 == 0:
-            dot_oracle(ctx, spec, real=True)
+            dot_oracle(ctx, spec, real=True, opts=count_opts(ctx, spec_opts(rng, spec)) if i % 2 else None)
     # 4. classes outside the Lean model and the MRI factories
     for i in range(int(200 * budget)):
         spec, A = gen_opaque(rng)
         spec, A = wrap_opaque(rng, spec, A)
         ctx.case(("oracle", json.dumps(spec)))
         ctx.count("oracle:opaque:" + next(iter(leaves(spec)))[1])
-        dot_oracle(ctx, spec)
+        dot_oracle(ctx, spec, real=(i % 4 == 1), opts=count_opts(ctx, spec_opts(rng, spec)) if i % 2 else None)
     # 5. parameter regions with defects at the pinned commit: always probed by the oracle
     for i in range(max(3, int(4 * budget))):
         for name, f, key in (("transpose-negative-axes", transpose_negative_axes, "C01:Transpose:negative-axes"),
@@ -1339,6 +1994,31 @@ def search(ctx, budget):
                 dot_oracle(ctx, spec)
             finally:
                 _KEY_OVERRIDE.pop()
+    # 6. operator programs: every live object of a history with shared operands and adjoints taken in between
+    if ctx.prop == "C01":
+        for i in range(int(160 * budget)):
+            prog, stats = gen_program(rng, opaque=(i % 4 == 3), lim=MAXEL if i % 4 != 3 else 200)
+            vseed = rng.randrange(1 << 30)
+            ctx.case(("oracle-program", json.dumps(prog), vseed))
+            ctx.count("oracle:program")
+            for k, v in stats.items():
+                ctx.count("oracle:program:" + k, v)
+            prog_oracle(ctx, prog, vseed)
+
+
+def count_opts(ctx, opts):
+    for k, v in opts.items():
+        if k == "layout":
+            ctx.count("oracle:opt:layout:" + v[0])
+            ctx.count("oracle:opt:layout:" + v[1])
+        else:
+            ctx.count("oracle:opt:" + k)
+    return opts
+
+
+def cvec(vals, shape, real):
+    a = np.array([complex(p, q) for p, q in vals]).reshape(shape)
+    return a.real.copy() if real else a
 
 
 def replay(path, oracle=None):
@@ -1348,7 +2028,15 @@ def replay(path, oracle=None):
         return 0
     c = r["case"]
     ctx = common.Ctx(r.get("property", PROPERTY), "quick", 0)
-    x = y = None
+    if "program" in c and oracle is None:
+        # a history: re-run the whole program with the recorded vector seed (every check of the run is repeated)
+        ok = prog_oracle(ctx, c["program"], c.get("vseed", 0), origin="replay")
+        for f in ctx.failures:
+            print("object %s at %s:" % (f["case"].get("obj"), f["case"].get("at")), f["what"])
+            print("observed:", f["observed"], "expected:", f["expected"])
+        print("replay:", "property holds on this input" if ok else "property FAILS on this input")
+        return 0 if ok else 1
+    x = y = x2 = y2 = None
     if "x" in c and oracle is None:
         A = None
         try:
@@ -1356,12 +2044,18 @@ def replay(path, oracle=None):
         except Exception:
             pass
         if A is not None:
-            x = np.array([complex(a, b) for a, b in c["x"]]).reshape(A.ishape)
-            y = np.array([complex(a, b) for a, b in c["y"]]).reshape(A.oshape)
-            if c.get("real"):
-                x, y = x.real.copy(), y.real.copy()
+            real = bool(c.get("real"))
+            x, y = cvec(c["x"], A.ishape, real), cvec(c["y"], A.oshape, real)
+            if "x2" in c:
+                x2, y2 = cvec(c["x2"], A.ishape, real), cvec(c["y2"], A.oshape, real)
+            if (c.get("opts") or {}).get("single"):
+                cast = (lambda v: v.astype(np.float32)) if real else (lambda v: v.astype(np.complex64))
+                x, y = cast(x), cast(y)
+                if x2 is not None:
+                    x2, y2 = cast(x2), cast(y2)
     if oracle is None:
-        ok = dot_oracle(ctx, c["spec"], x=x, y=y, origin="replay", real=c.get("real", False))
+        ok = dot_oracle(ctx, c["spec"], x=x, y=y, origin="replay", real=c.get("real", False), opts=c.get("opts"),
+                        x2=x2, y2=y2)
     else:
         ok = oracle(ctx, c)
     if in_model(c["spec"]):
